@@ -173,13 +173,15 @@ def to_doc(m, key_form="uncompressed"):
     return {"version": 2, "targets": ["quote"], "elements": els}
 
 
-def envelope(m, rng, sig_len=None):
+def envelope(m, rng, sig_len=None, include_root=True):
     """binary quote envelope as the SGX powHSM returns it (sgx/envelope.py layout)"""
     r, s = decode_dss_signature(m.quote_sig)
     qr, qs = decode_dss_signature(m.qe_sig)
     auth = (r.to_bytes(32, "big") + s.to_bytes(32, "big") + xy(m.att_key.public_key()) +
             m.qe_report + qr.to_bytes(32, "big") + qs.to_bytes(32, "big"))
-    certdata = b"".join(pem(c).encode() for c in reversed(m.certs)) + pem(m.root_cert).encode()
+    certdata = b"".join(pem(c).encode() for c in reversed(m.certs))
+    if include_root:
+        certdata += pem(m.root_cert).encode()
     qead = struct.pack("<H", len(m.auth_data)) + m.auth_data
     qecd = struct.pack("<HI", 5, len(certdata)) + certdata
     siglen = len(auth) + len(qead) + len(qecd) if sig_len is None else sig_len
